@@ -666,7 +666,7 @@ def run(chk):
         raise RuntimeError("harness build failed (does /repo still compile?):\n" + outh[-3000:])
 
     rng = vlib.Rng(chk.seed * 1000003 + 6)
-    n = 90 if chk.tier == "quick" else 1200
+    n = 110 if chk.tier == "quick" else 1000
     cases = load_corpus()
     ncorpus = len(cases)
     cases += forced_cases()
@@ -754,7 +754,8 @@ def run(chk):
 
     # sensitivity of the acceptor itself: the pre-repair machine must reject what the repaired code produces
     # whenever a snapshot was taken with a write in flight (its timestamp would have been the assigned number)
-    unrep = model_side(mx, results, chk.work, unrepaired=True)
+    sample = results[:300]
+    unrep = model_side(mx, sample, chk.work, unrepaired=True)
     unrep_rejects = sum(1 for x in unrep if x.startswith("REJECT"))
 
     chk.coverage.update({
@@ -765,7 +766,7 @@ def run(chk):
         "correspondence": "real store (hooks ea9fafc: sync42::verif recorder + lsmtk kvs verif_events) vs extracted Conc.KvsConc.step and Conc.Spec.sstep, label by label; final seq_no / mem_seq_no compared",
         "direct_oracle": "writes ordered by their assigned sequence numbers; every get/scan must equal the store contents at one cut of that order between (max seq completed before its invocation) and (max seq assigned before its response), cuts non-decreasing along real time; on failure the property text itself is evaluated: per-key feasibility and batch tearing",
         "disagreements_impl_vs_model": len(corr_bad), "disagreements_impl_vs_spec": len(prop_bad), "machinery_failures": len(mach_bad),
-        "acceptor_sensitivity": "%d of %d recorded traces are rejected by the extracted PRE-repair machine (step_unrepaired: snapshot at the last assigned sequence number)" % (unrep_rejects, len(results)),
+        "acceptor_sensitivity": "%d of the first %d recorded traces are rejected by the extracted PRE-repair machine (step_unrepaired: snapshot at the last assigned sequence number)" % (unrep_rejects, len(sample)),
         "trusted_base": [
             "Coq 8.16.1 kernel (coqc, full .vo build); vm_compute for the two concrete witness traces",
             "Lsm area (tree model, C01 theorems load_newest / flush_inv / compact_inv) as imported lemmas",
